@@ -237,7 +237,7 @@ from pyvc.arrays import SArr as _SArr
 @contract("acryo.loader._misc:dict_iterrows", props=["C10", "C03"])
 class dict_iterrows:
     """generator driven by next()/StopIteration (outside the executor's subset): trusted to yield, for i = 0.. up to the
-    shortest value, the row {key: value[i]}"""
+    shortest value, the row {key: value[i]} -- always in the SAME dict object (aliasing modelled, see below)"""
     trusted = True
 
     @staticmethod
@@ -259,7 +259,12 @@ class dict_iterrows:
                 n = V.smin(n, m)
         if not V.is_sym(n):
             return [{k: g(i) for k, g in gets.items()} for i in range(n)]
-        return _loops.SList(n, lambda i: {k: g(i) for k, g in gets.items()})
+        out = _loops.SList(n, lambda i: {k: g(i) for k, g in gets.items()})
+        # the generator yields ONE dict object that it updates in place before every yield: consumed step by step
+        # (zip / for) the i-th value is row i, but materialised (list(...), tuple(...)) every element is that same
+        # object in its final state, i.e. the last row
+        out.aliased = True
+        return out
     ensures = {}
 
 
